@@ -4,7 +4,8 @@
 #   tests pass with the change, demo fails with it and passes without it; then applies the patch to /repo, runs the
 #   property's check, and restores /repo.  Stores the artefacts in /verif/seeded/Cnn/.
 P=$1; TIER=${2:-quick}
-S=/tmp/seed/$P
+S=${SEEDBASE:-/tmp/seed}/$P
+D=$P${SEEDSUFFIX:-}
 V=/verif
 [ -f $S/out/patch.diff ] || { echo "no patch for $P"; exit 2; }
 cd $S/wt || exit 2
@@ -16,9 +17,9 @@ git apply -R $S/out/patch.diff
 PYTHONPATH=$S/wt /venv/bin/python $S/out/demo.py > $S/out/demo_without.txt 2>&1; DO=$?
 git apply $S/out/patch.diff
 echo "$P tests: $T | demo with change exit=$DW | without exit=$DO"
-mkdir -p $V/seeded/$P
-cp $S/out/patch.diff $S/out/demo.py $V/seeded/$P/ 2>/dev/null
-cp $S/out/meta.json $V/seeded/$P/meta_agent.json 2>/dev/null
+mkdir -p $V/seeded/$D
+cp $S/out/patch.diff $S/out/demo.py $V/seeded/$D/ 2>/dev/null
+cp $S/out/meta.json $V/seeded/$D/meta_agent.json 2>/dev/null
 cd $V
 [ -z "$(git -C /repo status --porcelain --untracked-files=no)" ] || { echo "/repo dirty"; exit 2; }
 git -C /repo apply $S/out/patch.diff || { echo "$P: patch does not apply to /repo"; exit 2; }
@@ -34,4 +35,4 @@ fi
 git -C /repo checkout -- .
 rm -rf $V/found/$P
 echo "$P check($TIER) exit=$CE $((e-s))s: $(grep -E -A1 'VIOLATION|HARNESS' $S/out/check_$TIER.txt | head -2 | tr '\n' ' ' | cut -c1-300)$GEN"
-echo "{\"tests\": \"$T\", \"demo_with_change_exit\": $DW, \"demo_without_change_exit\": $DO, \"check_tier\": \"$TIER\", \"check_exit\": $CE, \"check_seconds\": $((e-s))}" > $V/seeded/$P/confirm_$TIER.json
+echo "{\"tests\": \"$T\", \"demo_with_change_exit\": $DW, \"demo_without_change_exit\": $DO, \"check_tier\": \"$TIER\", \"check_exit\": $CE, \"check_seconds\": $((e-s))}" > $V/seeded/$D/confirm_$TIER.json
